@@ -19,13 +19,17 @@ view == <<s, c, w>>
 \* object (a coordinate); 4 value of a member of an object inside the root object (a property); 5 value of the first
 \* member of the root object (another member follows); 6 like 3, but only the atoms a number is made of are tried
 \* (used under -simulate: long random number spellings, legal or broken by one atom)
-Base == <<  <<>>, <<"o">>, <<"o", "a">>, <<"o", "o">>, <<"o">>, <<"o", "a">>  >>
+Base == <<  <<>>, <<"o">>, <<"o", "a">>, <<"o", "o">>, <<"o">>, <<"o", "a">>, <<"o", "a">>  >>
 Suffix == <<  <<>>, <<RBrace>>, <<Comma, Digit, RBrack, RBrace>>, <<RBrace, RBrace>>, <<Comma, Quote, Other, Quote, Colon, Quote, Other, Quote, RBrace>>,
-              <<Comma, Digit, RBrack, RBrace>>  >>
+              <<Comma, Digit, RBrack, RBrace>>, <<Comma, Digit, RBrack, RBrace>>  >>
+\* context 7: like 6 without exponents - plain decimals of every length up to MaxLen (15 to 17 significant digits are where
+\* a hand-written decimal decoder goes wrong)
 NumAtoms == {Zero, Digit, Minus, Plus, Dot, AtE, BigE}
+PlainAtoms == {Zero, Digit, Minus, Dot}
+AtomsOf(k) == IF k = 6 THEN NumAtoms ELSE IF k = 7 THEN PlainAtoms ELSE Atoms
 Init == \E k \in Ctxs : c = k /\ s = S("val", Base[k]) /\ h = <<>> /\ w = 0
 Next == /\ s.m # "dead" /\ Len(h) < MaxLen
-        /\ \E a \in (IF c = 6 THEN NumAtoms ELSE Atoms) : LET t == Step(s, a) IN
+        /\ \E a \in AtomsOf(c) : LET t == Step(s, a) IN
               /\ t.m # "dead" /\ Len(t.st) <= Len(Base[c]) + MaxD
               /\ s' = t /\ h' = Append(h, a) /\ c' = c
               /\ w' = IF IsWs(a) /\ s.m \notin {"str", "esc", "u1", "u2", "u3", "u4"} /\ Len(s.st) > Len(Base[c]) /\ w < MaxW THEN w + 1 ELSE w
@@ -37,7 +41,7 @@ CompleteOK == LET t == Run(s, FinishToken(s)) IN
                  Len(t.st) >= Len(Base[c]) /\ SubSeq(t.st, 1, Len(Base[c])) = Base[c] /\ (s.m = "done" => c = 1)
                  => Valid(c, h \o CompleteTo(s, Len(Base[c])))
 Emit == /\ PrintT(ToString(<<"LEX", c, h, Valid(c, h)>>))
-        /\ \A a \in (IF c = 6 THEN NumAtoms ELSE Atoms) : LET t == Step(s, a)
+        /\ \A a \in AtomsOf(c) : LET t == Step(s, a)
                                 tx == Append(h, a) \o CompleteTo(IF t.m = "dead" THEN s ELSE t, Len(Base[c]))
                             IN PrintT(ToString(<<"LEX", c, tx, Valid(c, tx)>>))
 =============================================================================
